@@ -630,6 +630,9 @@ class VStr(object):
         if len(xd) == 0:
             return True
         n = len(xd)
+        if n == 1 and isinstance(xd[0], SymInt) and xd[0].tag is not None and xd[0].tag[0] == 'tbl' \
+                and self.is_concrete() and xd[0].tag[1] == self.real():
+            return True
         conds = [_eq_items(self._d[i:i + n], xd) for i in range(len(self._d) - n + 1)]
         r = s_or(*conds) if conds else False
         return r if isinstance(r, bool) else cur().branch(r.e)
@@ -651,6 +654,18 @@ class VStr(object):
     def find(self, sub, start=0):
         sd = VStr(sub)._d
         n = len(sd)
+        if n == 1 and isinstance(sd[0], SymInt) and self.is_concrete() and start == 0:
+            ch = sd[0]
+            t = ch.tag
+            if t is not None and t[0] == 'tbl' and t[1] == self.real() and len(set(self._d)) == len(self._d):
+                return t[2]
+            present = s_or(*[ch == c for c in self._d])
+            if not (present if isinstance(present, bool) else cur().branch(present.e)):
+                return -1
+            r = len(self._d) - 1
+            for i in range(len(self._d) - 2, -1, -1):
+                r = s_ite(ch == self._d[i], i, r)
+            return r
         for i in range(start, len(self._d) - n + 1):
             r = _eq_items(self._d[i:i + n], sd)
             if (r if isinstance(r, bool) else cur().branch(r.e)):
@@ -668,7 +683,7 @@ class VStr(object):
 
     def index(self, sub, start=0):
         r = self.find(sub, start)
-        if r < 0:
+        if not isinstance(r, SymInt) and r < 0:
             raise ValueError("substring not found")
         return r
 
@@ -780,6 +795,27 @@ def hex_digits(n, width=0):
         raise EngineLeak("'%x' of a negative symbolic int")
     if n.hi is None:
         raise EngineLeak("'%x' of an unbounded int")
+    if n.lia:
+        from .core import find_repr
+        known = find_repr(n.e, 16, n.lo, n.hi)
+        if known is not None:
+            # digits known through the representation lemma: drop leading zeros by looking at the digits themselves
+            ds = list(known)
+            while len(ds) > max(1, width):
+                z = ds[-1] == 0
+                if (z if isinstance(z, bool) else cur().branch(z.e)):
+                    ds.pop()
+                else:
+                    break
+            ds = ds + [0] * (max(1, width) - len(ds))
+            out = []
+            for i in range(len(ds) - 1, -1, -1):
+                nib = ds[i]
+                ch = s_ite(nib < 10, nib + 48, nib + 87)
+                if isinstance(ch, SymInt):
+                    ch.tag = ('hexd', n, i, ds)
+                out.append(ch)
+            return VStr._mk(out)
     maxd = max(1, (n.hi.bit_length() + 3) // 4)
     k = maxd
     while k > max(1, width):
@@ -789,6 +825,16 @@ def hex_digits(n, width=0):
         k -= 1
     k = max(k, width, 1)
     out = []
+    if n.lia:
+        from .core import lia_digits
+        ds = lia_digits(n, 16, k)
+        for i in range(k - 1, -1, -1):
+            nib = ds[i]
+            ch = s_ite(nib < 10, nib + 48, nib + 87)
+            if isinstance(ch, SymInt):
+                ch.tag = ('hexd', n, i, ds)
+            out.append(ch)
+        return VStr._mk(out)
     for i in range(k - 1, -1, -1):
         nib = (n >> (4 * i)) & 15
         ch = s_ite(nib < 10, nib + 48, nib + 87)
@@ -846,6 +892,8 @@ def _hexval(ch):
             return _rint(c, 16)
         raise ValueError("invalid hex digit")
     t = ch.tag
+    if t is not None and t[0] == 'hexd':
+        return t[3][t[2]]
     if t is not None and t[0] in ('hexn', 'hexb'):
         return None  # caller handles tagged digits
     d = s_and(ch >= 48, ch <= 57)
@@ -874,6 +922,9 @@ def hex_pairs_to_bytes(chars):
             n = ta[1]
             out.append((n >> (4 * tb[2])) & 255)
             continue
+        if ta and tb and ta[0] == 'hexd' and tb[0] == 'hexd':
+            out.append(ta[3][ta[2]] * 16 + tb[3][tb[2]])
+            continue
         va = _nib(a)
         vb = _nib(b)
         out.append(va * 16 + vb)
@@ -883,6 +934,8 @@ def hex_pairs_to_bytes(chars):
 def _nib(ch):
     if isinstance(ch, SymInt) and ch.tag is not None:
         t = ch.tag
+        if t[0] == 'hexd':
+            return t[3][t[2]]
         if t[0] == 'hexn':
             return (t[1] >> (4 * t[2])) & 15
         if t[0] == 'hexb':
@@ -909,6 +962,9 @@ def parse_int(s, base):
     r = 0
     for b in bs:
         r = r * 256 + b
+    if isinstance(r, SymInt) and r.lia:
+        from .core import register_repr
+        register_repr(r, 256, bs[::-1])
     return r
 
 
